@@ -9,8 +9,34 @@ let errno_name = function
   | EIO -> "eio" | ENOSPC -> "enospc" | EACCES -> "eacces" | E404 -> "e404"
   | EBADLINK -> "ebadlink" | EUSED -> "eused" | EEMPTYKEY -> "eemptykey" | EOTHER -> "eother"
 
+(* blocks above 2048 bytes are shown as B<len>:<md5> (harness/lib ContentTok) *)
+let content_tok (c : n list) : string =
+  let len = List.length c in
+  if len <= 2048 then hex_of_bytes c
+  else begin
+    let b = Bytes.create len in
+    List.iteri (fun i x -> Bytes.set b i (Char.chr (int_of_n x land 255))) c;
+    "B" ^ string_of_int len ^ ":" ^ Digest.to_hex (Digest.bytes b)
+  end
+
+(* the deterministic blobs of the N: token (harness/lib GenBlob / BlobSpec) *)
+let gen_blob (n : int) (seed : int) : n list =
+  List.init n (fun i -> byte_tab.((seed * 31 + i * 7 + (i lsr 8) * 13) mod 251))
+let blob_spec (spec : string) : n list =
+  List.concat (List.map (fun part ->
+      match String.split_on_char '.' part with
+      | [l; sd] -> gen_blob (int_of_string l) (int_of_string sd)
+      | _ -> []) (String.split_on_char '+' spec))
+
+(* upper-case hex: the custom escaping function of store specs "<shard>:hex" *)
+let hex_up (k : n list) : n list =
+  List.concat (List.map (fun x ->
+      let v = int_of_n x land 255 in
+      let d i = byte_tab.(Char.code "0123456789ABCDEF".[i]) in
+      [d (v lsr 4); d (v land 15)]) k)
+
 let obs_tok = function
-  | OUnit -> "-" | OOk -> "ok" | OErr e -> "e:" ^ errno_name e | OBytes c -> "b:" ^ hex_of_bytes c
+  | OUnit -> "-" | OOk -> "ok" | OErr e -> "e:" ^ errno_name e | OBytes c -> "b:" ^ content_tok c
   | OStreamErr e -> "se:" ^ errno_name e | OBool true -> "t" | OBool false -> "f"
   | OUnsupported -> "unsup" | OBadHandle -> "badh" | OPanic -> "panic"
 
@@ -20,6 +46,7 @@ let handles s =
 let parse_op (t : string) : op option =
   match String.split_on_char ':' t with
   | ["n"; c] -> Some (ONew (bytes_of_hex c))
+  | ["N"; spec] -> Some (ONew (blob_spec spec))
   | ["m"; h; c] -> Some (OMut (nat_of_int (int_of_string h), bytes_of_hex c))
   | ["p"; k; h] -> Some (OPut (bytes_of_hex k, nat_of_int (int_of_string h)))
   | ["s"; k; hs] -> Some (OPutStream (bytes_of_hex k, handles hs))
@@ -61,15 +88,17 @@ let listing (f : (n list list * node) list) : string =
   let ents = List.map (fun (p, nd) ->
       match nd with
       | Dir -> "d:" ^ path_text p
-      | File c -> "f:" ^ path_text p ^ "=" ^ hex_of_bytes c) f in
+      | File c -> "f:" ^ path_text p ^ "=" ^ content_tok c) f in
   String.concat "," (List.sort compare ents)
 
-let shard_of = function "r133" -> R133 | "r122" -> R122 | _ -> R12
+let shard_of (spec : string) = match List.hd (String.split_on_char ':' spec) with "r133" -> R133 | "r122" -> R122 | _ -> R12
+let esc_of (spec : string) : n list -> n list =
+  match String.split_on_char ':' spec with [_; "hex"] -> hex_up | _ -> b32enc
 
 let cfg_of (config : string) : fscfg =
   match String.split_on_char ',' config with
   | sh :: q :: _ when String.length q >= 3 ->
-    { f_base = base_path; f_shard = shard_of sh; f_esc = b32enc;
+    { f_base = base_path; f_shard = shard_of sh; f_esc = esc_of sh;
       q_no_escape = (q.[1] = '1'); q_empty_ok = (q.[2] = '1');
       q_mkdir_exist_fails = (String.length q < 4 || q.[3] = '1') }
   | sh :: _ -> pinned_cfg base_path (shard_of sh)
@@ -180,7 +209,10 @@ let oracle (store : string) (cfg : fscfg) (ops : op list) (impl : string list) :
                  (* follow the implementation's handle numbering *)
                  (match o with
                   | OGet _ | OPeek _ when String.length tok >= 2 && String.sub tok 0 2 = "b:" ->
-                    let c = bytes_of_hex (String.sub tok 2 (String.length tok - 2)) in
+                    let rest = String.sub tok 2 (String.length tok - 2) in
+                    let c = if String.length rest > 0 && rest.[0] = 'B'
+                      then (match exp with OBytes e -> e | _ -> [])     (* digest only: the content itself is not in the record *)
+                      else bytes_of_hex rest in
                     s := { (!s) with s_hnd = (!s).s_hnd @ [(c, (match o with OPeek _ -> true | _ -> false))] }
                   | _ -> ())
                end
